@@ -1017,6 +1017,34 @@ def _mk(facts, body, res, leaf, bits, N):
     return ra
 
 
+class NamedResolver(Resolver):
+    """Expresses values over the program's own variables: a named local is a leaf — unless it is itself a function of exactly one
+    other variable (`let high_bits = code_unit & 0xFC00`), in which case it is seen through, so that a test of `high_bits` is
+    judged as the test of `code_unit` it is."""
+
+    def local(self, l, d=0):
+        if l in self.cache:
+            return self.cache[l]
+        if self.b.locals[l].get('name') and l > self.b.arg_count and d > 0:
+            sd = self.b.single_def(l)
+            r = ('loc', l)
+            if sd is not None and sd[2] == 'assign' and d < self.max_depth:
+                self.cache[l] = r          # cycle guard
+                saved = self.cur
+                self.cur = (sd[0], sd[1])
+                v = self.rvalue(sd[3]['rv'], d + 1)
+                self.cur = saved
+                uniq = []
+                for x in leaves(v):
+                    if x not in uniq:
+                        uniq.append(x)
+                if len(uniq) == 1 and uniq[0][0] == 'loc':
+                    r = v
+            self.cache[l] = r
+            return r
+        return Resolver.local(self, l, d)
+
+
 def scalar_predicates(facts, body):
     """Every comparison (assigned or switched on) whose value depends on exactly one scalar leaf and
     constants: list of dict(bb, leaf, bits, ty, true_set|None, at).  Integer switches directly on a leaf
@@ -1024,8 +1052,7 @@ def scalar_predicates(facts, body):
     out = []
     res = Resolver(body)
 
-    res_named = Resolver(body)
-    res_named.stop_named = True
+    res_named = NamedResolver(body)
 
     def one(bi, cond, at, is_switch_int=False, targets=None, remake=None):
         uniq = []
